@@ -19,7 +19,7 @@ def run(ctx, prop, modules, witness=()):
     if not ctx.translate():
         return
     ok = ctx.prove(list(modules) + TIE_MODULES + list(witness), needs_gen=TIE_GEN)
-    n = 4000 if ctx.thorough() else 160
+    n = 2500 if ctx.thorough() else 160
     res = fw.corr(ctx, "da", n)
     if res is not None:
         mine = set(ORACLES[prop] + ALWAYS)
